@@ -1054,6 +1054,22 @@ impl Check for ClientCheck {
                 // boundary grid: pre x final, exhaustive over the listed boundary values
                 let pres: Vec<u64> = vec![0, 1, 2, 2500, 99_999, 100_000, 999_999_999_998, 999_999_999_999];
                 let n = pres.len() as u64 * 9 * 3;
+                // a slow but healthy terminal while the card-reading time is configured short: reservation,
+                // release and clean-up take as long as they take (their time-outs are not the card reading's)
+                fams.push(Family::new("slow_terminal_with_short_card_reading_time", 4 * 2, true, |i, _| {
+                    let mut p = ClientPlan::plain(vec![
+                        OpSpec::Begin { token: "A".into(), res: ResOutcome { pre: 1, prints: 1, ..ResOutcome::success() } },
+                        if i % 2 == 0 {
+                            OpSpec::Commit { token: "A".into(), amount: 1200, rev: RevOutcome { pre: 1, status: true, prints: 1, end: EndSpec::Completion }, cleanup: CleanupSpec::plain() }
+                        } else {
+                            OpSpec::Cancel { token: "A".into(), rev: RevOutcome { pre: 1, status: true, prints: 0, end: EndSpec::Completion }, cleanup: CleanupSpec::plain() }
+                        },
+                    ]);
+                    let (rc, pace) = [(0u8, 4_000u32), (1, 5_000), (3, 8_000), (5, 9_500)][(i / 2) as usize];
+                    p.cfg.read_card_timeout = rc;
+                    p.pt.pace_ms = pace;
+                    p
+                }));
                 // a reservation refused with an abort in one of the richer forms (currency code - the
                 // terminal's own, if it has one -, TLV container), then business as usual: what a refusal
                 // carried leaves no trace in later requests
